@@ -313,6 +313,365 @@ def checkDeleteStr : List String := [
   "return true"
 ]
 
+/-! the copy-on-write functions of propNames (Cow.lean), the key-type dispatchers of `Object` (Entry.lean, suffixes NOT erased),
+the lazily-templated built-ins (Templ.lean), the mapped arguments object (Args.lean) -/
+def cow_delete : List String := [
+  "delete(o.values, KEY)",
+  "for range o.propNames",
+  "if n == KEY",
+  "names := o.propNames",
+  "if namesMarkedForCopy(names)",
+  "newNames := make([]unistring.String, len(names)-1, shrinkCap(len(names), cap(names)))",
+  "copy(newNames, names[:i])",
+  "copy(newNames[i:], names[i+1:])",
+  "o.propNames = newNames",
+  "else",
+  "copy(names[i:], names[i+1:])",
+  "names[len(names)-1] = \"\"",
+  "o.propNames = names[:len(names)-1]",
+  "end",
+  "if i < o.lastSortedPropLen",
+  "o.lastSortedPropLen--",
+  "if i < o.idxPropCount",
+  "o.idxPropCount--",
+  "end",
+  "end",
+  "break",
+  "end",
+  "end"
+]
+
+def cow_fixPropOrder : List String := [
+  "names := o.propNames",
+  "i := o.lastSortedPropLen",
+  "for i < len(names)",
+  "name := names[i]",
+  "idx := strToArray(name)",
+  "if idx != math.MaxUint32",
+  "k := sort.Search(o.idxPropCount, func(j int) bool { return strToArray(names[j]) >= idx })",
+  "if k < i",
+  "if namesMarkedForCopy(names)",
+  "newNames := make([]unistring.String, len(names), cap(names))",
+  "copy(newNames[:k], names)",
+  "copy(newNames[k+1:i+1], names[k:i])",
+  "copy(newNames[i+1:], names[i+1:])",
+  "names = newNames",
+  "o.propNames = names",
+  "else",
+  "copy(names[k+1:i+1], names[k:i])",
+  "end",
+  "names[k] = name",
+  "end",
+  "o.idxPropCount++",
+  "end",
+  "i++",
+  "end",
+  "o.lastSortedPropLen = len(names)"
+]
+
+def cow_ensurePropOrder : List String := [
+  "if o.lastSortedPropLen < len(o.propNames)",
+  "o.fixPropOrder()",
+  "end"
+]
+
+def cow_prepareNamesForCopy : List String := [
+  "if len(KEY) == 0",
+  "return KEY",
+  "end",
+  "if namesMarkedForCopy(KEY) || cap(KEY) == len(KEY)",
+  "var newcap int",
+  "if cap(KEY) == len(KEY)",
+  "newcap = growCap(len(KEY)+1, len(KEY), cap(KEY))",
+  "else",
+  "newcap = cap(KEY)",
+  "end",
+  "newNames := make([]unistring.String, len(KEY), newcap)",
+  "copy(newNames, KEY)",
+  "KEY = newNames",
+  "end",
+  "KEY[cap(KEY)-1 : cap(KEY)][0] = copyMarker",
+  "return KEY"
+]
+
+def cow_namesMarkedForCopy : List String := [
+  "return cap(KEY) > len(KEY) && KEY[cap(KEY)-1 : cap(KEY)][0] == copyMarker"
+]
+
+def cow_clearNamesCopyMarker : List String := [
+  "if cap(KEY) > len(KEY)",
+  "KEY[cap(KEY)-1 : cap(KEY)][0] = \"\"",
+  "end"
+]
+
+def cow_copyNamesIfNeeded : List String := [
+  "if namesMarkedForCopy(KEY) && len(KEY)+extraCap >= cap(KEY)",
+  "var newcap int",
+  "newsize := len(KEY) + extraCap + 1",
+  "if newsize > cap(KEY)",
+  "newcap = growCap(newsize, len(KEY), cap(KEY))",
+  "else",
+  "newcap = cap(KEY)",
+  "end",
+  "newNames := make([]unistring.String, len(KEY), newcap)",
+  "copy(newNames, KEY)",
+  "return newNames",
+  "end",
+  "return KEY"
+]
+
+def cow_iterateStringKeys : List String := [
+  "o.ensurePropOrder()",
+  "propNames := prepareNamesForCopy(o.propNames)",
+  "o.propNames = propNames",
+  "return (&objectPropIter{ o: o, propNames: propNames, }).next"
+]
+
+def cow_objectPropIter_next : List String := [
+  "for i.idx < len(i.propNames)",
+  "name := i.propNames[i.idx]",
+  "i.idx++",
+  "prop := i.o.values[name]",
+  "if prop != nil",
+  "return propIterItem{name: stringValueFromRaw(name), value: prop}, i.next",
+  "end",
+  "end",
+  "clearNamesCopyMarker(i.propNames)",
+  "return propIterItem{}, nil"
+]
+
+def disp_get : List String := [
+  "typeswitch KEY := KEY.(type)",
+  "case valueInt",
+  "return o.self.getIdx(KEY, receiver)",
+  "case *Symbol",
+  "return o.self.getSym(KEY, receiver)",
+  "default",
+  "return o.self.getStr(KEY.string(), receiver)",
+  "end"
+]
+
+def disp_set : List String := [
+  "typeswitch KEY := KEY.(type)",
+  "case valueInt",
+  "return o.setIdx(KEY, val, receiver, throw)",
+  "case *Symbol",
+  "return o.setSym(KEY, val, receiver, throw)",
+  "default",
+  "return o.setStr(KEY.string(), val, receiver, throw)",
+  "end"
+]
+
+def disp_setOwn : List String := [
+  "typeswitch KEY := KEY.(type)",
+  "case valueInt",
+  "return o.self.setOwnIdx(KEY, val, throw)",
+  "case *Symbol",
+  "return o.self.setOwnSym(KEY, val, throw)",
+  "default",
+  "return o.self.setOwnStr(KEY.string(), val, throw)",
+  "end"
+]
+
+def disp_delete : List String := [
+  "typeswitch KEY := KEY.(type)",
+  "case valueInt",
+  "return o.self.deleteIdx(KEY, throw)",
+  "case *Symbol",
+  "return o.self.deleteSym(KEY, throw)",
+  "default",
+  "return o.self.deleteStr(KEY.string(), throw)",
+  "end"
+]
+
+def disp_hasProperty : List String := [
+  "typeswitch KEY := KEY.(type)",
+  "case valueInt",
+  "return o.self.hasPropertyIdx(KEY)",
+  "case *Symbol",
+  "return o.self.hasPropertySym(KEY)",
+  "default",
+  "return o.self.hasPropertyStr(KEY.string())",
+  "end"
+]
+
+def disp_defineOwnProperty : List String := [
+  "typeswitch KEY := KEY.(type)",
+  "case valueInt",
+  "return o.self.defineOwnPropertyIdx(KEY, desc, throw)",
+  "case *Symbol",
+  "return o.self.defineOwnPropertySym(KEY, desc, throw)",
+  "default",
+  "return o.self.defineOwnPropertyStr(KEY.string(), desc, throw)",
+  "end"
+]
+
+def tmpl_getOwnPropStr : List String := [
+  "v, exists := o.values[KEY]",
+  "if exists",
+  "return v",
+  "end",
+  "f := o.tmpl.props[KEY]",
+  "if f != nil",
+  "v := f(o.val.runtime)",
+  "o.values[KEY] = v",
+  "return v",
+  "end",
+  "return nil"
+]
+
+def tmpl_getOwnPropSym : List String := [
+  "if o.symValues == nil && o.tmpl.symProps[KEY] == nil",
+  "return nil",
+  "end",
+  "o.materialiseSymbols()",
+  "return o.baseObject.getOwnProp(KEY)"
+]
+
+def tmpl_materialiseSymbols : List String := [
+  "if o.symValues == nil",
+  "o.symValues = newOrderedMap(nil)",
+  "for range o.tmpl.symPropNames",
+  "o.symValues.set(p, o.tmpl.symProps[p](o.val.runtime))",
+  "end",
+  "end"
+]
+
+def tmpl_materialisePropNames : List String := [
+  "if o.propNames == nil",
+  "o.propNames = append(([]unistring.String)(nil), o.tmpl.propNames...)",
+  "end"
+]
+
+def tmpl_defineOwnPropertyStr : List String := [
+  "existingVal := o.getOwnProp(KEY)",
+  "v, ok := o._defineOwnProperty(KEY, existingVal, descr, throw)",
+  "if ok",
+  "o.values[KEY] = v",
+  "if existingVal == nil",
+  "o.materialisePropNames()",
+  "names := copyNamesIfNeeded(o.propNames, 1)",
+  "o.propNames = append(names, KEY)",
+  "end",
+  "return true",
+  "end",
+  "return false"
+]
+
+def tmpl_defineOwnPropertySym : List String := [
+  "o.materialiseSymbols()",
+  "return o.baseObject.defineOwnProperty(KEY, descr, throw)"
+]
+
+def tmpl_deleteStr : List String := [
+  "val := o.getOwnProp(KEY)",
+  "if val != nil",
+  "if !o.checkDelete(KEY, val, throw)",
+  "return false",
+  "end",
+  "o.materialisePropNames()",
+  "o._delete(KEY)",
+  "_, exists := o.tmpl.props[KEY]",
+  "if exists",
+  "o.values[KEY] = nil",
+  "end",
+  "end",
+  "return true"
+]
+
+def tmpl_deleteSym : List String := [
+  "o.materialiseSymbols()",
+  "return o.baseObject.delete(KEY, throw)"
+]
+
+def tmpl_setOwnSym : List String := [
+  "o.materialiseSymbols()",
+  "o.materialiseProto()",
+  "return o.baseObject.setOwn(KEY, val, throw)"
+]
+
+def tmpl_hasOwnPropertyStr : List String := [
+  "v, exists := o.values[KEY]",
+  "if exists",
+  "return v != nil",
+  "end",
+  "_, exists := o.tmpl.props[KEY]",
+  "return exists"
+]
+
+def tmpl_hasOwnPropertySym : List String := [
+  "if o.symValues != nil",
+  "return o.symValues.has(KEY)",
+  "end",
+  "_, exists := o.tmpl.symProps[KEY]",
+  "return exists"
+]
+
+def args_getOwnPropStr : List String := [
+  "mapped, ok := a.values[KEY].(*mappedProperty)",
+  "if ok",
+  "if mapped.writable && mapped.enumerable && mapped.configurable",
+  "return *mapped.v",
+  "end",
+  "return &valueProperty{ value: *mapped.v, writable: mapped.writable, configurable: mapped.configurable, enumerable: mapped.enumerable, }",
+  "end",
+  "return a.baseObject.getOwnProp(KEY)"
+]
+
+def args_setOwnStr : List String := [
+  "prop, ok := a.values[KEY].(*mappedProperty)",
+  "if ok",
+  "if !prop.writable",
+  "typeErrorResult(throw)",
+  "return false",
+  "end",
+  "*prop.v = val",
+  "return true",
+  "end",
+  "return a.baseObject.setOwn(KEY, val, throw)"
+]
+
+def args_deleteStr : List String := [
+  "prop, ok := a.values[KEY].(*mappedProperty)",
+  "if ok",
+  "if !a.checkDeleteProp(KEY, &prop.valueProperty, throw)",
+  "return false",
+  "end",
+  "a._delete(KEY)",
+  "return true",
+  "end",
+  "return a.baseObject.delete(KEY, throw)"
+]
+
+def args_defineOwnPropertyStr : List String := [
+  "mapped, ok := a.values[KEY].(*mappedProperty)",
+  "if ok",
+  "existing := &valueProperty{ configurable: mapped.configurable, writable: true, enumerable: mapped.enumerable, value: *mapped.v, }",
+  "val, ok := a.baseObject._defineOwnProperty(KEY, existing, descr, throw)",
+  "if !ok",
+  "return false",
+  "end",
+  "prop, ok := val.(*valueProperty)",
+  "if ok",
+  "if !prop.accessor",
+  "*mapped.v = prop.value",
+  "end",
+  "if prop.accessor || !prop.writable",
+  "a._put(KEY, prop)",
+  "return true",
+  "end",
+  "mapped.configurable = prop.configurable",
+  "mapped.enumerable = prop.enumerable",
+  "else",
+  "*mapped.v = val",
+  "mapped.configurable = true",
+  "mapped.enumerable = true",
+  "end",
+  "return true",
+  "end",
+  "return a.baseObject.defineOwnProperty(KEY, descr, throw)"
+]
+
 def symLookupPrelude : List String := [
   "var prop Value",
   "if o.symValues != nil",
@@ -344,5 +703,35 @@ theorem hasPropertyIdx_expected : hasPropertyIdx = Expected.hasPropertyIdx := by
 theorem hasPropertySym_expected : hasPropertySym = Expected.hasPropertySym := by rfl
 theorem getWithOwnPropStr_expected : getWithOwnPropStr = Expected.getWithOwnPropStr := by rfl
 theorem checkDeleteStr_expected : checkDeleteStr = Expected.checkDeleteStr := by rfl
+theorem cow_delete_expected : cow_delete = Expected.cow_delete := by rfl
+theorem cow_fixPropOrder_expected : cow_fixPropOrder = Expected.cow_fixPropOrder := by rfl
+theorem cow_ensurePropOrder_expected : cow_ensurePropOrder = Expected.cow_ensurePropOrder := by rfl
+theorem cow_prepareNamesForCopy_expected : cow_prepareNamesForCopy = Expected.cow_prepareNamesForCopy := by rfl
+theorem cow_namesMarkedForCopy_expected : cow_namesMarkedForCopy = Expected.cow_namesMarkedForCopy := by rfl
+theorem cow_clearNamesCopyMarker_expected : cow_clearNamesCopyMarker = Expected.cow_clearNamesCopyMarker := by rfl
+theorem cow_copyNamesIfNeeded_expected : cow_copyNamesIfNeeded = Expected.cow_copyNamesIfNeeded := by rfl
+theorem cow_iterateStringKeys_expected : cow_iterateStringKeys = Expected.cow_iterateStringKeys := by rfl
+theorem cow_objectPropIter_next_expected : cow_objectPropIter_next = Expected.cow_objectPropIter_next := by rfl
+theorem disp_get_expected : disp_get = Expected.disp_get := by rfl
+theorem disp_set_expected : disp_set = Expected.disp_set := by rfl
+theorem disp_setOwn_expected : disp_setOwn = Expected.disp_setOwn := by rfl
+theorem disp_delete_expected : disp_delete = Expected.disp_delete := by rfl
+theorem disp_hasProperty_expected : disp_hasProperty = Expected.disp_hasProperty := by rfl
+theorem disp_defineOwnProperty_expected : disp_defineOwnProperty = Expected.disp_defineOwnProperty := by rfl
+theorem tmpl_getOwnPropStr_expected : tmpl_getOwnPropStr = Expected.tmpl_getOwnPropStr := by rfl
+theorem tmpl_getOwnPropSym_expected : tmpl_getOwnPropSym = Expected.tmpl_getOwnPropSym := by rfl
+theorem tmpl_materialiseSymbols_expected : tmpl_materialiseSymbols = Expected.tmpl_materialiseSymbols := by rfl
+theorem tmpl_materialisePropNames_expected : tmpl_materialisePropNames = Expected.tmpl_materialisePropNames := by rfl
+theorem tmpl_defineOwnPropertyStr_expected : tmpl_defineOwnPropertyStr = Expected.tmpl_defineOwnPropertyStr := by rfl
+theorem tmpl_defineOwnPropertySym_expected : tmpl_defineOwnPropertySym = Expected.tmpl_defineOwnPropertySym := by rfl
+theorem tmpl_deleteStr_expected : tmpl_deleteStr = Expected.tmpl_deleteStr := by rfl
+theorem tmpl_deleteSym_expected : tmpl_deleteSym = Expected.tmpl_deleteSym := by rfl
+theorem tmpl_setOwnSym_expected : tmpl_setOwnSym = Expected.tmpl_setOwnSym := by rfl
+theorem tmpl_hasOwnPropertyStr_expected : tmpl_hasOwnPropertyStr = Expected.tmpl_hasOwnPropertyStr := by rfl
+theorem tmpl_hasOwnPropertySym_expected : tmpl_hasOwnPropertySym = Expected.tmpl_hasOwnPropertySym := by rfl
+theorem args_getOwnPropStr_expected : args_getOwnPropStr = Expected.args_getOwnPropStr := by rfl
+theorem args_setOwnStr_expected : args_setOwnStr = Expected.args_setOwnStr := by rfl
+theorem args_deleteStr_expected : args_deleteStr = Expected.args_deleteStr := by rfl
+theorem args_defineOwnPropertyStr_expected : args_defineOwnPropertyStr = Expected.args_defineOwnPropertyStr := by rfl
 
 end GojaModel.C04.Tie
